@@ -12,11 +12,11 @@ import (
 
 func init() {
 	register(&PropRules{
-		ID: "C01",
+		ID:      "C01",
 		Explain: "Password verdict tracks the last acknowledged write — structural part: (C01.1) password identity: from every exported store entry point (Dir.AddUser/UpdateUser/Init/Authenticate, UserHash.Add/Update/Authenticate) to the password operand of each KDF call (argon2.IDKey in Generate and Check; scryptauth Gen/Check and, inside the dependency, scrypt.Key) the value is the parameter itself up to string→[]byte — no slicing, trimming, folding; (C01.2–C01.4) the verdict can be true only through parameter-set lookup, algorithm match and a constant-time comparison of the whole KDF output with the whole stored digest (shared with C02.1); (C01.5) file-name agreement: every user-file path is Join(BaseDir,user)+{.admin|.user}; getFilename's extension is decided by its flag; Exists consults .admin first and reports admin only for it, then .user; Remove unlinks both extensions of the same stem; SetAdmin renames between exactly these two in the direction of its argument; fileExists reports 'absent' only on IsNotExist; (C01.6) the reported admin flag and last-change are those of the record that was checked, and List reports the entry's own extension flag and time.",
-		Undec: []string{"correctness of scrypt / argon2id / HMAC (trusted)", "closure of the verdict under arbitrary operation histories and file-system behaviour", "the PBKDF2 key-equivalence classes named in the property"},
-		Run:   runC01,
-		Floors: map[string]int{"C01.1": 10, "C01.2": 4, "C01.5": 5},
+		Undec:   []string{"correctness of scrypt / argon2id / HMAC (trusted)", "closure of the verdict under arbitrary operation histories and file-system behaviour", "the PBKDF2 key-equivalence classes named in the property"},
+		Run:     runC01,
+		Floors:  map[string]int{"C01.1": 10, "C01.2": 4, "C01.5": 5},
 	})
 }
 
